@@ -226,6 +226,8 @@ theorem fin_hold {N : Nat} {d : Cfg} {m : QEv} {rp : Option Nat} {f : Frame}
       rcases (hR' x).mp hx with hx | hx
       · exact (hfrp x hx).1
       · exact hJ.hro x hx
+    · intro h0
+      exact absurd h0 (List.ne_nil_of_mem hxin)
 
 
 theorem nodup_of_nodup_map {α β : Type} (g : α → β) {l : List α} (h : (l.map g).Nodup) : l.Nodup := by
